@@ -705,6 +705,33 @@ class NP:
         return Arr(shape, fn, x.dtype, x.kind)
 
     # ---- shape
+    def asanyarray(self, x, dtype=None, **kw):
+        used("np.asanyarray")
+        return self.asarray(x, dtype=dtype)
+
+    def isscalar(self, x):
+        used("np.isscalar")
+        if isinstance(x, Arr):
+            return False
+        if isinstance(x, (list, tuple, dict, set, SList)) or x is None:
+            return False
+        return is_scalar(x) or isinstance(x, (int, float, bool, str, Poly))
+
+    def stack(self, xs, axis=0, **kw):
+        used("np.stack")
+        if axis != 0:
+            raise ModelError("np.stack along an axis other than 0")
+        if isinstance(xs, (list, tuple)):
+            xs = [lift(x) for x in xs]
+            if not xs:
+                raise PyRaise("ValueError", "need at least one array to stack")
+            if all(isinstance(x, Arr) for x in xs) or all(is_scalar(x) for x in xs):
+                return A.stack_list(xs)
+            raise ModelError("np.stack of mixed operands")
+        if isinstance(xs, SList):
+            return A.stack_list(xs)
+        raise ModelError("np.stack of %s" % type(xs).__name__)
+
     def vstack(self, xs):
         used("np.vstack")
         if isinstance(xs, (list, tuple)):
